@@ -356,7 +356,7 @@ def gsnap(g):
     return [g.name, list(g.target), None if g.control is None else list(g.control), repr(g.parameter), bool(g.is_variational)]
 
 
-@part("gates", quick=2000, thorough=200000)
+@part("gates", quick=1600, thorough=200000)
 def gates_part(ctx):
 
     def body_eq(case):
@@ -406,13 +406,15 @@ def gates_part(ctx):
         labels = {g["n"]}
         return True, labels
 
-    ctx.search("gate_eq", gate_pairs(), body_eq, frac=0.6)
+    # exclusion predicates are only used for signatures listed as open known findings (search continues behind them)
+    ctx.search("gate_eq", gate_pairs(), body_eq, frac=0.6,
+               exclusions={"gate_eq:equal-gates-differ:ctrl-rot": lambda case: case["g"]["n"] in ROT3})
     ctx.search("gate_inverse", gate_pairs(), body_inv, frac=0.4)
 
 
 # ------------------------------------------------------------------------------------------------ part 2: inverse/copy/+/*
 
-@part("algebra", quick=1600, thorough=150000)
+@part("algebra", quick=1200, thorough=150000)
 def algebra_part(ctx):
     from tangelo.linq import Circuit
     mw, mg = (5, 14) if ctx.tier == "quick" else (6, 24)
@@ -573,11 +575,14 @@ def pass_body(case):
     return changed or big_ctrl_rot(recs) or "index-gaps" in labels, labels
 
 
-@part("passes", quick=4800, thorough=600000)
+@part("passes", quick=4000, thorough=600000)
 def passes_part(ctx):
     mw, mg = (5, 14) if ctx.tier == "quick" else (6, 24)
+    names = {"small": "remove_small_rotations", "merge": "merge_rotations", "redundant": "remove_redundant_gates", "simplify": "simplify"}
     for op, form in PASS_SEARCHES:
-        ctx.search(f"{op}_{form}", pass_cases(op, form, mw, mg), pass_body, frac=1.0 / len(PASS_SEARCHES))
+        # used only if the signature is listed as an open known finding: continue the search on circuits without controlled rotations
+        excl = {f"{names[op]}_{form}:action:ctrl-rot": lambda case: has_ctrl_rot(case["circ"]["gates"])}
+        ctx.search(f"{op}_{form}", pass_cases(op, form, mw, mg), pass_body, frac=1.0 / len(PASS_SEARCHES), exclusions=excl)
 
 
 # ------------------------------------------------------------------------------------------------ part 4: split/stack/trim/reindex
@@ -758,7 +763,7 @@ def trivial_cases(draw):
     return {"gates": seq, "nq": nq}
 
 
-@part("trim_trivial", quick=600, thorough=50000)
+@part("trim_trivial", quick=400, thorough=50000)
 def trim_trivial_part(ctx):
     from tangelo.toolboxes.operators.trim_trivial_qubits import trim_trivial_circuit
 
